@@ -1,74 +1,400 @@
 /-
-C11 — graph iteration stays well defined while the graph is edited: property theorems about the
-pointer-faithful model `Model/LinkedSet.lean` (helper developments: `Lemmas/LinkedSet*.lean`).
+C11 — graph iteration stays well defined while the graph is edited.
+
+Property theorems about the pointer-faithful model `Model/LinkedSet.lean` of
+`src/onnx_ir/_linked_list.py` (boxes with prev/next/value, root box, id->box dict, length;
+generators as cursors).  Helper developments: `Lemmas/LinkedSet*.lean`.
+
+Structure of the result:
+* `C11_rep_*`        the representation invariant `WF` holds initially and after every operation
+                     of every history;
+* `C11_refine_*`     the structure *with any cursor parked anywhere in it* refines the abstract
+                     list-with-gaps machine `Spec`: sequence, every cursor, every `next()`;
+* `C11_terminates`, `C11_only_members`, `C11_getitem_len_contains`, `C11_tombstone_*`;
+* `C11_spec_*`       the English clauses, proved on the abstract machine (pure list facts).
 -/
-import IrVerif.Lemmas.LinkedSetIter
+import IrVerif.Lemmas.LinkedSetSim
+import IrVerif.Lemmas.LinkedSetSpec
+import IrVerif.Lemmas.LinkedSetFrozen
 namespace IrVerif.LinkedSet
 
-/-- The representation invariant: there is a list `bs` of live boxes such that `Inv s bs`
-(one prev/next cycle through the root, index map and length agree, tombstones ordered). -/
+/-- The representation invariant: there is a list `bs` of live boxes such that `Inv s bs` — the
+live boxes form one prev/next cycle through the root, the dict maps exactly the stored values to
+their boxes, `_length` is their number, every box is owned by this list, and every erased box's
+stored pointers lead to the root, a live box or a box erased strictly later. -/
 def WF (s : LSet) : Prop := ∃ bs, Inv s bs
 
-theorem erase_map_mid {f : Nat → Nat} (l1 l2 : List Nat) (n v : Nat) (hf : f n = v)
-    (hv : v ∉ l1.map f) : ((l1 ++ n :: l2).map f).erase v = (l1 ++ l2).map f := by
-  rw [List.map_append, List.erase_append]
-  simp [hv, hf]
+/-- a cursor refers to an existing box (true of `notStarted`, `done` and of every cursor a
+`next()` returns) -/
+def Cursor.Valid (s : LSet) (c : Cursor) : Prop := c.pos < size s
+
+/-- abstraction to the list-with-gaps machine, using only executable functions of the model -/
+def abs (s : LSet) (d : Dir) (c : Cursor) : Spec.St := ⟨toList s, d, absCur s d c⟩
+
+theorem abs_eq {s : LSet} {bs : List Nat} (h : Inv s bs) (d : Dir) (c : Cursor) :
+    abs s d c = absSt s bs d c := by
+  simp only [abs, absSt, h.toList_eq, h.absCur_eq]
+
+/-! ### representation invariant -/
 
 /-- **C11_rep_empty** -/
 theorem C11_rep_empty : WF empty ∧ toList empty = [] :=
   ⟨⟨[], inv_empty⟩, by rw [inv_empty.toList_eq]; rfl⟩
 
-/-- **C11_rep_remove**: `remove` preserves the invariant; it returns normally exactly when the
-value is present, then the sequence is the old one with that value erased; otherwise it raises
-and nothing at all is written. -/
-theorem C11_rep_remove {s : LSet} (h : WF s) (v : Nat) :
-    WF (remove s v).1 ∧ toList (remove s v).1 = (toList s).erase v ∧
-      ((remove s v).2 = true ↔ v ∈ toList s) ∧ (v ∉ toList s → (remove s v).1 = s) := by
+/-- **C11_rep_step**: every public operation (`append extend insert_after insert_before remove`,
+with arbitrary arguments: present, absent, repeated, the anchor itself) preserves the invariant,
+whether it returns or raises. -/
+theorem C11_rep_step {s : LSet} (h : WF s) (op : Op) : WF (apply s op).1 := by
   obtain ⟨bs, hi⟩ := h
-  by_cases hm : v ∈ toList s
-  · obtain ⟨n, hn, hvn⟩ := (hi.mem_toList v).1 hm
-    obtain ⟨l1, l2, rfl⟩ := List.append_of_mem hn
-    rw [hi.remove_eq hn hvn]
-    have hi' := inv_rmv hi hvn
-    refine ⟨⟨_, hi'⟩, ?_, by simp [hm], fun h => absurd hm h⟩
-    rw [hi'.toList_eq, hi.toList_eq]
-    have hnd := hi.nodup
-    have e : ∀ b ∈ l1 ++ l2, vl (rmv s n v) b = vl s b := by
-      intro b hb
-      have hbn : b ≠ n := by grind
-      show (val (er s n) b).getD 0 = _
-      rw [val_er]; simp [hbn, vl]
-    rw [List.map_congr_left e]
-    have hvn' : vl s n = v := by simp [vl, hvn]
-    have := hi.vals_nodup
-    rw [erase_map_mid l1 l2 n v hvn']
-    rw [List.map_append, List.nodup_append] at this
-    intro hc
-    exact this.2.2 v hc v (by simp [hvn']) rfl
-  · have habs : ∀ b ∈ bs, val s b ≠ some v := fun b hb hv => hm ((hi.mem_toList v).2 ⟨b, hb, hv⟩)
-    rw [hi.remove_absent habs]
-    refine ⟨⟨bs, hi⟩, ?_, by simp [hm], fun _ => rfl⟩
-    rw [List.erase_of_not_mem hm]
+  obtain ⟨bs', hi', _⟩ := sim_apply hi op .fwd .notStarted (by simpa [Cursor.pos] using hi.size_pos)
+  exact ⟨bs', hi'⟩
 
-/-- **C11_rep_insertOneAfter**: inserting after the root or a live box preserves the invariant,
-never raises, and returns a live box holding the value. -/
-theorem C11_rep_insertOneAfter {s : LSet} (h : WF s) (b v : Nat)
-    (hb : b = 0 ∨ (val s b).isSome) :
-    WF (insertOneAfter s b v).1 ∧
-      ∃ b', (insertOneAfter s b v).2 = some b' ∧ val (insertOneAfter s b v).1 b' = some v := by
+/-- **C11_rep_history**: the invariant holds after every finite history. -/
+theorem C11_rep_history (ops : List Op) : WF (ops.foldl (fun s o => (apply s o).1) empty) := by
+  suffices ∀ s, WF s → WF (ops.foldl (fun s o => (apply s o).1) s) from this _ C11_rep_empty.1
+  induction ops with
+  | nil => intro s h; exact h
+  | cons o ops ih => intro s h; exact ih _ (C11_rep_step h o)
+
+/-! ### refinement to the list with gaps -/
+
+/-- **C11_refine_step**: one public operation on the pointer structure is the same operation on
+the abstract machine — for the sequence (`toList`), for the outcome (returned / raised) and for
+*every* cursor, wherever it is parked (on a live box, on an erased box, not started, finished).
+Cursors are transformed independently of each other: the statement holds for all `d`, `c`
+simultaneously. -/
+theorem C11_refine_step {s : LSet} (h : WF s) (op : Op) (d : Dir) (c : Cursor) (hc : c.Valid s) :
+    abs (apply s op).1 d c = (Spec.apply (abs s d c) op).1 ∧
+    (apply s op).2 = (Spec.apply (abs s d c) op).2 ∧
+    c.Valid (apply s op).1 := by
   obtain ⟨bs, hi⟩ := h
-  have hn : IsNode bs b := by
-    rcases hb with hb | hb
-    · exact Or.inl hb
-    · right
-      apply Classical.byContradiction
-      intro hc
-      rw [hi.dead b hc] at hb; simp at hb
-  obtain ⟨bs', b', he, hi', _, hv, _⟩ := inv_insertOneAfter hi hn v
-  exact ⟨⟨bs', hi'⟩, b', by rw [he], hv⟩
+  obtain ⟨bs', hi', hs, ho, hsz⟩ := sim_apply hi op d c hc
+  rw [abs_eq hi', abs_eq hi]
+  exact ⟨hs, ho, Nat.lt_of_lt_of_le hc hsz⟩
 
--- non-vacuity: the invariant holds on a state with a tombstone (box 2 erased) and a moved value
+/-- **C11_refine_next**: one `next()` on a generator is one `Spec.step`: same element (or
+StopIteration), and the new concrete cursor abstracts to the new abstract cursor. -/
+theorem C11_refine_next {s : LSet} (h : WF s) (d : Dir) (c : Cursor) (hc : c.Valid s) :
+    abs s d (iterNext s d c).1 = (Spec.step (abs s d c)).1 ∧
+    (iterNext s d c).2 = (match (Spec.step (abs s d c)).2 with
+      | some v => Res.yield v
+      | none => Res.stop) ∧
+    (iterNext s d c).1.Valid s := by
+  obtain ⟨bs, hi⟩ := h
+  have := hi.next_eq d c hc
+  simp only at this
+  obtain ⟨h1, h2, h3⟩ := this
+  rw [abs_eq hi, abs_eq hi]
+  refine ⟨?_, ?_, h2⟩
+  · simp only [absSt, Spec.step, h1]
+  · simp only [absSt, Spec.step]
+    revert h3
+    cases (Spec.next (bs.map (vl s)) d (acur s bs d c)).2 <;> exact id
+
+/-- **C11_refine_start**: `iter()` / `reversed()` create the abstract start cursor. -/
+theorem C11_refine_start {s : LSet} (h : WF s) (d : Dir) :
+    absCur s d .notStarted = Spec.start (toList s) d := by
+  obtain ⟨bs, hi⟩ := h
+  rw [hi.absCur_eq, hi.toList_eq]
+  cases d <;> simp [acur, Cursor.pos, posR, posF, Spec.start, List.idxOf_eq_length hi.zero_notin]
+
+/-- **C11_refine_rest**: what a cursor would still yield is what its abstraction still yields:
+a suffix of the sequence (forward) or the reverse of a prefix (reverse). -/
+theorem C11_refine_rest {s : LSet} (h : WF s) (d : Dir) (c : Cursor) (hc : c.Valid s) :
+    rest s d c = Spec.rest (toList s) d (absCur s d c) := by
+  obtain ⟨bs, hi⟩ := h
+  rw [hi.absCur_eq, hi.toList_eq]
+  exact (hi.rest_eq d c hc).1
+
+/-! ### termination, membership, indexing -/
+
+/-- **C11_terminates**: in any reachable state, with no further edits, every generator —
+wherever it is parked — runs to StopIteration: no `RuntimeError` (the `owning_list` check cannot
+fire), no `next()` needs more than `size + 1` hops, and at most `len` further elements are
+yielded. -/
+theorem C11_terminates {s : LSet} (h : WF s) (d : Dir) (c : Cursor) (hc : c.Valid s) :
+    (drain s d (size s + 1) c).2 = .stop ∧ (rest s d c).length ≤ s.length ∧
+    ((iterNext s d c).2 = .stop ∨ ∃ v, (iterNext s d c).2 = .yield v) := by
+  obtain ⟨bs, hi⟩ := h
+  obtain ⟨h1, h2⟩ := hi.rest_eq d c hc
+  refine ⟨h2, ?_, hi.iterNext_ok d c hc⟩
+  rw [h1, hi.len]
+  generalize acur s bs d c = a
+  cases d <;> cases a <;> simp [Spec.rest] <;> omega
+
+/-- **C11_only_members**: whatever a generator yields is an element of the sequence at that
+moment (and the generator is then parked on that element's live box). -/
+theorem C11_only_members {s : LSet} (h : WF s) (d : Dir) (c c' : Cursor) (v : Nat) (hc : c.Valid s)
+    (hy : iterNext s d c = (c', .yield v)) : v ∈ toList s ∧ c'.Valid s := by
+  obtain ⟨bs, hi⟩ := h
+  obtain ⟨t, ht, rfl, hv⟩ := hi.iterNext_yield d hc hy
+  exact ⟨(hi.mem_toList v).2 ⟨t, ht, hv⟩, (hi.live t ht).2.1⟩
+
+theorem iterNth_links {s : LSet} {bs : List Nat} (h : Inv s bs) (d : Dir) :
+    ∀ (n : Nat) (l : List Nat) (c : Cursor), c ≠ .done →
+      HopLinks s d (c.pos :: l ++ [0]) → (∀ y ∈ l, y ∈ bs) →
+      iterNth s d n c = (l.map (vl s))[n]?
+  | n, [], c, hc, hl, _ => by
+      simp only [List.cons_append, List.nil_append, HopLinks_cons2] at hl
+      cases n <;> simp [iterNth, iterNext_of_pos s d c hc, hl.1, scan_root]
+  | 0, y :: l, c, hc, hl, hm => by
+      simp only [List.cons_append, HopLinks_cons2] at hl
+      simp [iterNth, iterNext_of_pos s d c hc, hl.1, scan_node h d (size s) y (hm y (by simp))]
+  | n + 1, y :: l, c, hc, hl, hm => by
+      simp only [List.cons_append, HopLinks_cons2] at hl
+      have ih := iterNth_links h d n l (.at y) (by simp) (by simpa [Cursor.pos] using hl.2)
+        (fun z hz => hm z (by simp [hz]))
+      simp [iterNth, iterNext_of_pos s d c hc, hl.1, scan_node h d (size s) y (hm y (by simp)), ih]
+
+/-- **C11_getitem_len_contains**: `len`, `x[i]` for every integer `i` (negative from the end,
+out of range raises) and `in` describe the current sequence. -/
+theorem C11_getitem_len_contains {s : LSet} (h : WF s) :
+    len s = some (toList s).length ∧
+    (∀ i : Int, getItem s i =
+      if 0 ≤ i ∧ i < (toList s).length then (toList s)[i.toNat]?
+      else if -((toList s).length : Int) ≤ i ∧ i < 0 then (toList s)[(i + (toList s).length).toNat]?
+      else none) ∧
+    (∀ v, contains s v = true ↔ v ∈ toList s) ∧
+    toListRev s = (toList s).reverse := by
+  obtain ⟨bs, hi⟩ := h
+  have hL := hi.toList_eq
+  have hn : (toList s).length = s.length := by rw [hL, hi.len]; simp
+  refine ⟨?_, ?_, ?_, ?_⟩
+  · simp [len, hi.ilen, hi.len, hL]
+  · intro i
+    unfold getItem
+    rw [hn]
+    have hf : ∀ n, iterNth s .fwd n .notStarted = (toList s)[n]? := by
+      intro n
+      rw [hL]
+      exact iterNth_links hi .fwd n bs .notStarted (by simp)
+        (by simpa [Cursor.pos, seqD] using hi.hopLinks .fwd) (fun _ hy => hy)
+    have hr : ∀ n, iterNth s .rev n .notStarted = (toList s).reverse[n]? := by
+      intro n
+      rw [hL, ← List.map_reverse]
+      exact iterNth_links hi .rev n bs.reverse .notStarted (by simp)
+        (by simpa [Cursor.pos, seqD] using hi.hopLinks .rev) (fun _ hy => by simpa using hy)
+    by_cases h1 : i ≥ (s.length : Int) ∨ i < -(s.length : Int)
+    · simp only [h1, if_true]
+      have : ¬ (0 ≤ i ∧ i < (s.length : Int)) := by omega
+      have : ¬ (-(s.length : Int) ≤ i ∧ i < 0) := by omega
+      simp [*]
+    · simp only [h1, if_false]
+      by_cases h2 : i < 0
+      · have : ¬ (0 ≤ i ∧ i < (s.length : Int)) := by omega
+        have h3 : -(s.length : Int) ≤ i ∧ i < 0 := by omega
+        simp only [h2, if_true, this, if_false, h3, hr]
+        rw [List.getElem?_reverse (by rw [hn]; omega)]
+        congr 1
+        rw [hn]; omega
+      · have h3 : 0 ≤ i ∧ i < (s.length : Int) := by omega
+        simp only [h2, if_false, h3, hf]
+        simp
+  · intro v; simp [contains]
+  · rw [hi.toListRev_eq, hL]
+
+/-! ### tombstones -/
+
+/-- **C11_tombstone_frozen**: an erased box is never written again, by any operation (so a
+generator parked on it keeps reading the pointers the box had when it was erased). -/
+theorem C11_tombstone_frozen {s : LSet} (h : WF s) (op : Op) (b : Nat) (hb0 : b ≠ 0)
+    (hb : b < size s) (hv : val s b = none) : box (apply s op).1 b = box s b := by
+  obtain ⟨bs, hi⟩ := h
+  exact (frozen_apply hi op).2 b hb0 hb hv
+
+/-- **C11_tombstone_order**: the stored `next` / `prev` of an erased box is the root, a live box,
+or a box erased strictly later (ghost erase stamps) — the well-founded order behind
+`C11_terminates`. -/
+theorem C11_tombstone_order {s : LSet} (h : WF s) (b : Nat) (hb0 : b ≠ 0) (hb : b < size s)
+    (hv : val s b = none) :
+    (nx s b = 0 ∨ (val s (nx s b)).isSome ∨ stp s b < stp s (nx s b)) ∧
+    (pv s b = 0 ∨ (val s (pv s b)).isSome ∨ stp s b < stp s (pv s b)) ∧
+    nx s b < size s ∧ pv s b < size s := by
+  obtain ⟨bs, hi⟩ := h
+  have hbs : b ∉ bs := by
+    intro hm; have := (hi.live b hm).2.2; rw [hv] at this; simp at this
+  obtain ⟨t1, t2⟩ := hi.tomb b hb hb0 hbs
+  have hbd := hi.bound b hb
+  refine ⟨?_, ?_, hbd.1, hbd.2.1⟩
+  · rcases t1 with t | t | t
+    · exact Or.inl t
+    · exact Or.inr (Or.inl (hi.live _ t).2.2)
+    · exact Or.inr (Or.inr t)
+  · rcases t2 with t | t | t
+    · exact Or.inl t
+    · exact Or.inr (Or.inl (hi.live _ t).2.2)
+    · exact Or.inr (Or.inr t)
+
+/-! ### the English clauses -/
+
+theorem acur_inRange {s : LSet} {bs : List Nat} (h : Inv s bs) (d : Dir) (c : Cursor)
+    (hc : c.pos < size s) : (acur s bs d c).InRange (bs.map (vl s)) := by
+  by_cases hd : c = .done
+  · subst hd; rw [acur_done]; trivial
+  · obtain ⟨hn, hi⟩ := h.acur_index d hd hc
+    have hF : ∀ t, posF bs t ≤ bs.length := fun t => List.idxOf_le_length
+    have hR : ∀ t, IsNode bs t → posR bs t ≤ bs.length := by
+      intro t ht
+      unfold posR
+      rcases ht with rfl | ht
+      · simp
+      · have h0 : t ≠ 0 := by rintro rfl; exact h.zero_notin ht
+        have := List.idxOf_lt_length_of_mem ht
+        simp only [h0, if_false]; omega
+    cases d with
+    | fwd =>
+      simp only at hi
+      rcases hi with hi | hi <;> rw [hi] <;> simp only [Spec.ACur.InRange, List.length_map] <;> exact hF _
+    | rev =>
+      simp only at hi
+      rcases hi with hi | hi <;> rw [hi] <;> simp only [Spec.ACur.InRange, List.length_map] <;>
+        exact hR _ hn
+
+theorem abs_ok {s : LSet} (h : WF s) (d : Dir) (c : Cursor) (hc : c.Valid s) : (abs s d c).OK := by
+  obtain ⟨bs, hi⟩ := h
+  rw [abs_eq hi]
+  exact ⟨hi.vals_nodup, acur_inRange hi d c hc⟩
+
+/-- **C11_next_rest**: a `next()` yields the first element of what the generator had left and
+leaves the remainder; StopIteration exactly when nothing is left. -/
+theorem C11_next_rest {s : LSet} (h : WF s) (d : Dir) (c : Cursor) (hc : c.Valid s) :
+    rest s d c = match (iterNext s d c).2 with
+      | .yield v => v :: rest s d (iterNext s d c).1
+      | _ => [] := by
+  obtain ⟨n1, n2, n3⟩ := C11_refine_next h d c hc
+  have ok := abs_ok h d c hc
+  have hr := Spec.rest_next (toList s) d (absCur s d c) ok.inRange
+  rw [C11_refine_rest h d c hc, hr]
+  have e : (Spec.step (abs s d c)).2 = (Spec.next (toList s) d (absCur s d c)).2 := rfl
+  rw [e] at n2
+  cases hv : (Spec.next (toList s) d (absCur s d c)).2 with
+  | none => rw [hv] at n2; simp only [n2]
+  | some v =>
+    rw [hv] at n2
+    simp only [n2]
+    rw [C11_refine_rest h d _ n3]
+    have : absCur s d (iterNext s d c).1 = (Spec.next (toList s) d (absCur s d c)).1 := by
+      have := congrArg Spec.St.c n1
+      simpa [abs, Spec.step] using this
+    rw [this]
+
+/-- **C11_untouched_step**: an edit leaves every element it does not touch (insert / move /
+remove) where it was in what *any* generator still has to yield: same multiplicity, same order. -/
+theorem C11_untouched_step {s : LSet} (h : WF s) (op : Op) (d : Dir) (c : Cursor) (hc : c.Valid s) :
+    untouched (touched op) (rest (apply s op).1 d c) = untouched (touched op) (rest s d c) := by
+  obtain ⟨r1, _, r3⟩ := C11_refine_step h op d c hc
+  have ok := abs_ok h d c hc
+  obtain ⟨_, u⟩ := Spec.apply_spec ok op
+  rw [C11_refine_rest (C11_rep_step h op) d c r3, C11_refine_rest h d c hc]
+  have e1 : Spec.rest (toList (apply s op).1) d (absCur (apply s op).1 d c) =
+      (Spec.apply (abs s d c) op).1.rest := by
+    rw [← r1]; rfl
+  rw [e1, u]; rfl
+
+theorem untouched_append (T l1 l2 : List Nat) :
+    untouched T (l1 ++ l2) = untouched T l1 ++ untouched T l2 := by
+  simp [untouched]
+
+theorem untouched_mono {T T' l l' : List Nat} (hT : ∀ x ∈ T, x ∈ T')
+    (h : untouched T l = untouched T l') : untouched T' l = untouched T' l' := by
+  have key : ∀ m : List Nat, untouched T' m = untouched T' (untouched T m) := by
+    intro m
+    simp only [untouched, List.filter_filter]
+    apply List.filter_congr
+    intro x _
+    by_cases hx : x ∈ T
+    · simp [hx, hT x hx]
+    · simp [hx]
+  rw [key l, key l', h]
+
+/-- **C11_untouched_exactly_once_in_order**: over any history of edits and `next()` calls, what a
+generator has yielded followed by what it still has to yield, restricted to the elements no edit
+touched, is what it had to yield at the start restricted in the same way.  For a generator
+created by `iter()` (`c = notStarted`, `rest = toList`) and run to exhaustion (`rest = []` at the
+end) this is: every node present at the start and never touched is yielded exactly once, in
+graph order (reversed order for `reversed()`). -/
+theorem C11_untouched_exactly_once_in_order (d : Dir) (es : List Ev) :
+    ∀ {s : LSet} (_ : WF s) (c : Cursor) (_ : c.Valid s),
+      let r := runHist d s c es
+      WF r.1 ∧ r.2.1.Valid r.1 ∧
+      untouched (touchedAll es) (r.2.2 ++ rest r.1 d r.2.1) = untouched (touchedAll es) (rest s d c) := by
+  induction es with
+  | nil => intro s h c hc; exact ⟨h, hc, by simp [runHist]⟩
+  | cons e es ih =>
+    intro s h c hc
+    cases e with
+    | op o =>
+      obtain ⟨_, _, r3⟩ := C11_refine_step h o d c hc
+      obtain ⟨w, v, u⟩ := ih (C11_rep_step h o) c r3
+      refine ⟨w, v, ?_⟩
+      simp only [runHist, touchedAll] at u ⊢
+      have u1 := untouched_mono (T' := touched o ++ touchedAll es) (fun x hx => by simp [hx]) u
+      have u2 := untouched_mono (T' := touched o ++ touchedAll es) (fun x hx => by simp [hx])
+        (C11_untouched_step h o d c hc)
+      rw [u1, u2]
+    | next =>
+      obtain ⟨n1, n2, n3⟩ := C11_refine_next h d c hc
+      have hr := C11_next_rest h d c hc
+      obtain ⟨w, v, u⟩ := ih h (iterNext s d c).1 n3
+      simp only [touchedAll]
+      have n1' : absCur s d (iterNext s d c).1 = (Spec.next (toList s) d (absCur s d c)).1 := by
+        have := congrArg Spec.St.c n1
+        simpa [abs, Spec.step] using this
+      have n2' : (iterNext s d c).2 = (match (Spec.next (toList s) d (absCur s d c)).2 with
+          | some v => Res.yield v
+          | none => Res.stop) := n2
+      cases hres : iterNext s d c with
+      | mk c' res =>
+        rw [hres] at hr u w v n1' n2' n3
+        simp only at hr u w v n1' n2' n3
+        cases hv : (Spec.next (toList s) d (absCur s d c)).2 with
+        | some x =>
+          rw [hv] at n2'
+          simp only at n2'
+          subst n2'
+          simp only [runHist, hres]
+          refine ⟨w, v, ?_⟩
+          simp only at hr
+          rw [hr, List.cons_append]
+          simp only [untouched, List.filter_cons] at u ⊢
+          rw [u]
+        | none =>
+          rw [hv] at n2'
+          simp only at n2'
+          subst n2'
+          simp only [runHist, hres]
+          refine ⟨w, v, ?_⟩
+          simp only at hr
+          have hd : absCur s d c' = .done := by rw [n1']; exact Spec.next_none _ _ _ hv
+          have hr' : rest s d c' = [] := by
+            rw [C11_refine_rest h d c' n3, hd]; cases d <;> rfl
+          rw [u, hr, hr']
+
+/-- **C11_spec_rest_remove / insert / resume** (abstract machine, split form `A ++ x :: B`):
+removing `x` removes exactly `x` from what every cursor still yields; inserting a new `x` adds at
+most `x`, and it is seen exactly when it lands after the cursor's position (`Spec.seen`); a
+cursor whose current element is removed continues with the element that followed it. -/
+theorem C11_spec_rest_remove (A B : List Nat) (x : Nat) (hnd : (A ++ x :: B).Nodup) (d : Dir)
+    (c : Spec.ACur) (hc : c.InRange (A ++ x :: B)) :
+    Spec.rest (A ++ B) d (Spec.curRemove d A.length c) = (Spec.rest (A ++ x :: B) d c).erase x :=
+  (Spec.rest_removeIdx A B x hnd d c hc).1
+
+theorem C11_spec_rest_insert (A B : List Nat) (x : Nat) (hx : x ∉ A ++ B) (d : Dir) (c : Spec.ACur)
+    (hc : c.InRange (A ++ B)) :
+    (Spec.rest (A ++ x :: B) d (Spec.curInsert d A.length c)).erase x = Spec.rest (A ++ B) d c ∧
+    (x ∈ Spec.rest (A ++ x :: B) d (Spec.curInsert d A.length c) ↔ Spec.seen d A.length c) :=
+  ⟨(Spec.rest_insertIdx A B x hx d c hc).1, (Spec.rest_insertIdx A B x hx d c hc).2.2⟩
+
+theorem C11_spec_resume (A B : List Nat) :
+    Spec.rest (A ++ B) .fwd (Spec.curRemove .fwd A.length (.att (A.length + 1))) = B ∧
+    Spec.rest (A ++ B) .rev (Spec.curRemove .rev A.length (.att A.length)) = A.reverse := by
+  simp [Spec.curRemove, Spec.rest]
+
+-- non-vacuity: the invariant holds on a state with a tombstone (box 2 erased) and a moved value,
+-- and a cursor parked on the tombstone is a `gap` cursor
 example : invOk (apply (apply (apply empty (.extend [7, 8, 9])).1 (.remove 8)).1 (.append 7)).1 = true := by
+  decide
+example : absCur (apply (apply empty (.extend [7, 8, 9])).1 (.remove 8)).1 .fwd (.at 2) = .gap 1 := by
   decide
 
 end IrVerif.LinkedSet
